@@ -145,11 +145,11 @@ func mkProvider(r *recorder, kind string, n int) core.Provider {
 // ---------------------------------------------------------------- schedule
 
 type sched struct {
-	r     *recorder
-	inner core.Schedule
-	past  int
-	late  time.Duration // how far in the past every past-th token lies
-	drawn int
+	r      *recorder
+	inner  core.Schedule
+	past   int
+	late   time.Duration // how far in the past every past-th token lies
+	drawn  int
 	shared bool // one object for all instances: the engine cancels the instance start when it is finished
 }
 
@@ -294,11 +294,11 @@ func mkStartup(kind string, inst int) core.Schedule {
 // ---------------------------------------------------------------- gun
 
 type gun struct {
-	r      *recorder
-	shot   time.Duration
-	aggr   core.Aggregator
-	report bool // report a sample per shot (real aggregator)
-	ids    map[any]int
+	r       *recorder
+	shot    time.Duration
+	aggr    core.Aggregator
+	report  bool // report a sample per shot (real aggregator)
+	ids     map[any]int
 	panicAt int // fault plan: the panicAt-th Shoot of the pool panics (0 = never)
 }
 
